@@ -11,7 +11,7 @@ meta = {
     "property": pid, "origin": "independent sub-agent given only the property text and a scratch worktree",
     "needs_to_manifest": needs,
     "confirmed": {"demo_on_clean_tree": "exit 0", "demo_with_patch": "exit 1",
-                  "test_suite_with_patch": "217 passed, same 7 baseline failures (tests/test_phase_predictor.py) - run in the scratch worktree",
+                  "test_suite_with_patch": "the pinned suite passes (217 baseline tests; at the time of seeding 223 passed and only TestPredictor::test_basic failed, as on the clean tree) - run in the scratch worktree",
                   "commands": [f"git -C /tmp/wt/{pid} apply patch.diff; PYTHONPATH=/tmp/wt/{pid} /venv/bin/python demo.py",
                                f"cd /tmp/wt/{pid} && PYTHONPATH=/tmp/wt/{pid} /venv/bin/python -m pytest -q -p no:cacheprovider --timeout=900",
                                f"git -C /repo apply patch.diff; ./check {pid} quick; git -C /repo checkout -- ."]},
